@@ -157,13 +157,16 @@ def check_lab_family(ctx, case):
 
     def child():
         Base = type("LabPart", (boot.AbstractPart, M), {"cutter": enz})
-        kids = [type("LabType%d" % i, (Base,), {"signature": sg}) for i, sg in enumerate(sigs)]
+        # (types made by one factory function all carry one class name: they stay distinct candidates)
+        kids = [type("LabType" if case.get("samename") else "LabType%d" % i, (Base,), {"signature": sg})
+                for i, sg in enumerate(sigs)]
         out = []
         for (wd, u, d) in words:
-            acc = [k.__name__ for k in kids if T.evaluate(k, wd)[0] == "valid"]
-            exp = [k.__name__ for k, sg in zip(kids, sigs) if sigmatch(sg[0], u) and sigmatch(sg[1], d)]
+            acc = ["LabType%d" % i for i, k in enumerate(kids) if T.evaluate(k, wd)[0] == "valid"]
+            exp = ["LabType%d" % i for i, (k, sg) in enumerate(zip(kids, sigs)) if sigmatch(sg[0], u) and sigmatch(sg[1], d)]
             try:
-                got = type(Base.characterize(impl.CircularRecord(impl.Seq(wd), id="c"))).__name__
+                got_t = type(Base.characterize(impl.CircularRecord(impl.Seq(wd), id="c")))
+                got = "LabType%d" % kids.index(got_t) if got_t in kids else got_t.__name__
             except Exception as e:  # noqa
                 # the documented failure is RuntimeError itself ("could not find the type"), not a subclass such as
                 # the NotImplementedError of an abstract type whose structure was consulted
@@ -322,12 +325,35 @@ def run(ctx):
             vwords.append([gen.rot(wd, rng.randrange(len(wd))), u, d])
         if len(words) >= 2:
             ctx.guard(check_lab_family, {"enz": str(enz), "sigs": sigs, "words": words, "vwords": vwords,
-                                         "kit": asm.cls_name(K) if K else None})
+                                         "kit": asm.cls_name(K) if K else None, "samename": rng.random() < 0.4})
     # characterize over the kit part families
     bases = [c for c in (getattr(m, n, None) for m in boot.kit_modules().values() for n in dir(m))
              if isinstance(c, type) and issubclass(c, boot.AbstractPart) and c.__subclasses__()
              and c.__module__.startswith("moclo.kits.")]
     bases = sorted(set(bases), key=lambda c: c.__name__)
+    # a member of a later candidate type whose backbone happens to carry a further site followed by the upstream overhang
+    # of an earlier candidate with the same downstream overhang: the earlier type's structure fits around the origin but
+    # over three sites (IllegalSite) — one candidate's refusal, whatever its reason, is not a verdict on the record
+    for _ in range(ctx.budget(40, 1200)):
+        base = rng.choice(bases)
+        subs = [c for c in base.__subclasses__() if c in derived and not issubclass(c, boot.AbstractVector)
+                and set("".join(c.signature)) <= set("ACGT")]
+        pairs_ = [(a_, b_) for i_, a_ in enumerate(subs) for b_ in subs[i_ + 1:]
+                  if a_.signature[1] == b_.signature[1] and a_.signature[0] != b_.signature[0] and a_.cutter is b_.cutter]
+        if not pairs_:
+            continue
+        A_, B_ = rng.choice(pairs_)
+        enz = B_.cutter
+        site, off, k = gen.geom(enz)
+        try:
+            wd, _ = gen.gen_module(rng, enz, B_.signature[0], B_.signature[1], tries=200)
+        except RuntimeError:
+            continue
+        fb = (site, gen.rc(site))
+        wd = wd + gen.rnd_avoid(rng, rng.randint(1, 5), fb) + site + gen.rnd_avoid(rng, off, fb) + A_.signature[0] + \
+            gen.rnd_avoid(rng, rng.randint(2, 6), fb)
+        ctx.guard(check_characterize, {"base": asm.cls_name(base), "word": gen.rot(wd, rng.randrange(len(wd)))})
+        ctx.note("earlier-candidate-illegal")
     for _ in range(ctx.budget(150, 5000)):
         base = rng.choice(bases)
         subs = [c for c in base.__subclasses__() if c in derived]
